@@ -365,6 +365,12 @@ def pred_c11(tr, story):
             new = {w for ws in p["table"].values() for w in ws if w.startswith("c")} - {w for ws in pj["table"].values() for w in ws if w.startswith("c")}
             done_now = [o for o in obs if o.startswith("TC")]
             new = {w for w in new if w[1:].isdigit()}
+            raw = [o for o in done_now if "=R." in o]
+            if raw:
+                # the call ended in the very step it was issued (its request could not be written / the connection was not up):
+                # "otherwise it fails with a timeout error or with the connection's error" - not with a raw exception
+                v.append(("C11/close-error", f"a call issued while the connection was {pj['cs']} (request types {send}, response types {types}) ended at once with a raw "
+                          f"exception ({raw[0]}) instead of the connection's error", i))
             if new:
                 cid = int(sorted(new)[0][1:])
                 calls[cid] = dict(start=i, t0=now, types=[int(x) for x in types.split(",") if x != "-"], ap=_pred_fn(ap), st=_pred_fn(st),
